@@ -97,9 +97,15 @@ class Cls(object):
         self.node = node
         self.name = node.name
         self.methods = {}
+        self.own_methods = {}
+        self.class_assigns = {}  # class-level NAME = value (own and, after Repo.link_classes, inherited)
+        self.bases = []
         for st in node.body:
             if isinstance(st, (ast.FunctionDef, ast.AsyncFunctionDef)):
                 self.methods[st.name] = Func(module, st, cls=self)
+            elif isinstance(st, ast.Assign) and len(st.targets) == 1 and isinstance(st.targets[0], ast.Name):
+                self.class_assigns[st.targets[0].id] = (module, st.value)
+        self.own_methods = dict(self.methods)
 
     @property
     def qualname(self):
@@ -243,6 +249,34 @@ class Repo(object):
         for name in MODULES:
             if name not in self.modules:
                 raise AnalysisError("E1.anchor", "module cvss/%s.py vanished" % name)
+        self.link_classes()
+
+    def link_classes(self):
+        """Single inheritance inside the package (a common base class, a mixin): methods and
+        class-level constants of the bases become visible on the subclass unless overridden."""
+        done = set()
+
+        def link(c, depth=0):
+            if id(c) in done or depth > 6:
+                return
+            done.add(id(c))
+            for b in c.node.bases:
+                if not isinstance(b, ast.Name):
+                    continue
+                r = self.resolve_global(c.module, b.id)
+                if r is None or r[0] != "class":
+                    continue
+                base = r[1]
+                link(base, depth + 1)
+                c.bases.append(base)
+                for name, f in base.methods.items():
+                    c.methods.setdefault(name, f)
+                for name, v in base.class_assigns.items():
+                    c.class_assigns.setdefault(name, v)
+
+        for m in self.modules.values():
+            for c in m.classes.values():
+                link(c)
 
     def digest(self):
         h = hashlib.sha256()
